@@ -285,7 +285,7 @@ variable (fs : FS) (lim : Limits) (root : Path) (rf : File)
 
 def Pre2 (g : Path) (fg : File) (stk s : List Path) : Prop :=
   fileOf fs root rf g = some fg ∧ (root = g ∨ root ∈ s) ∧ Reach fs lim root rf g ∧
-    ∀ x ∈ stk, Leads fs root rf x g
+    (∀ x ∈ stk, LeadsL fs lim root rf x g) ∧ ∀ x ∈ g :: stk, Enterable fs lim root x
 
 def Post2 (s : List Path) (r : Out) : Prop :=
   (∀ x ∈ s, x ∈ r.seen) ∧ (∀ x ∈ r.order, Reach fs lim root rf x) ∧ (∀ e ∈ r.errs, Located fs lim root rf e)
@@ -295,7 +295,8 @@ def RecSound (rec : RecS) : Prop :=
 
 theorem follow_sound (rec : RecS) (cd : Bool) (h : cd = true → RecSound fs lim root rf rec)
     (f : Path) (file : File) (stk : List Path) (hf : fileOf fs root rf f = some file)
-    (hr : Reach fs lim root rf f) (hstk : ∀ x ∈ stk, Leads fs root rf x f)
+    (hr : Reach fs lim root rf f) (hstk : ∀ x ∈ stk, LeadsL fs lim root rf x f)
+    (hent : ∀ x ∈ f :: stk, Enterable fs lim root x)
     (rng : Rng) (g : Path) (hit : Item.tgt rng g ∈ items fs f file)
     (s0 : List Path) (o : Out) (hroot : root ∈ o.seen) (ho : Post2 fs lim root rf s0 o) :
     root ∈ (follow fs lim rec cd f (f :: stk) rng g o).seen ∧
@@ -318,11 +319,12 @@ theorem follow_sound (rec : RecS) (cd : Bool) (h : cd = true → RecSound fs lim
   split
   · rename_i hc
     apply addErr
-    refine Located.cycle hr hf hi hnames ?_
-    simp only [List.contains_eq_mem, List.mem_cons, decide_eq_true_eq] at hc
-    rcases hc with hc | hc
-    · subst hc; exact Leads.refl _
-    · exact hstk g hc
+    have hc' : g ∈ f :: stk := by simpa using hc
+    refine Located.cycle hr hf hi hnames (hent g hc') ?_
+    simp only [List.mem_cons] at hc'
+    rcases hc' with hc' | hc'
+    · subst hc'; exact LeadsL.refl _
+    · exact hstk g hc'
   split
   · exact ⟨hroot, o1, o2, o3⟩
   rename_i hseen
@@ -341,14 +343,20 @@ theorem follow_sound (rec : RecS) (cd : Bool) (h : cd = true → RecSound fs lim
       · rename_i hcd
         have hcd' : cd = true := by simpa using hcd
         have hne : g ≠ root := fun e => hg (e ▸ hroot)
+        have edgeL : EdgeL fs lim root rf f g := ⟨edge, Or.inr hload⟩
         have hpre : Pre2 fs lim root rf g fg (f :: stk) o.seen := by
-          refine ⟨?_, Or.inr hroot, Reach.step hr edge hload, ?_⟩
+          refine ⟨?_, Or.inr hroot, Reach.step hr edge hload, ?_, ?_⟩
           · unfold fileOf; simp only [hne, if_false]; exact hfs
           · intro x hx
             simp only [List.mem_cons] at hx
             rcases hx with hx | hx
-            · subst hx; exact Leads.tail (Leads.refl _) edge
-            · exact Leads.tail (hstk x hx) edge
+            · subst hx; exact LeadsL.tail (LeadsL.refl _) edgeL
+            · exact LeadsL.tail (hstk x hx) edgeL
+          · intro x hx
+            simp only [List.mem_cons] at hx
+            rcases hx with hx | hx
+            · subst hx; exact Or.inr hload
+            · exact hent x (List.mem_cons.mpr hx)
         obtain ⟨p1, p2, p3⟩ := h hcd' g fg (f :: stk) o.seen hpre
         refine ⟨p1 root (List.mem_cons_of_mem _ hroot), ?_, ?_, ?_⟩
         · intro x hx; exact p1 x (List.mem_cons_of_mem _ (o1 x hx))
@@ -366,7 +374,8 @@ theorem follow_sound (rec : RecS) (cd : Bool) (h : cd = true → RecSound fs lim
 
 theorem visitItems_sound (rec : RecS) (cd : Bool) (h : cd = true → RecSound fs lim root rf rec)
     (f : Path) (file : File) (stk : List Path) (hf : fileOf fs root rf f = some file)
-    (hr : Reach fs lim root rf f) (hstk : ∀ x ∈ stk, Leads fs root rf x f)
+    (hr : Reach fs lim root rf f) (hstk : ∀ x ∈ stk, LeadsL fs lim root rf x f)
+    (hent : ∀ x ∈ f :: stk, Enterable fs lim root x)
     (its : List Item) (hits : ∀ it ∈ its, it ∈ items fs f file)
     (s0 : List Path) (o : Out) (hroot : root ∈ o.seen) (ho : Post2 fs lim root rf s0 o) :
     Post2 fs lim root rf s0 (visitItems fs lim rec cd f (f :: stk) its o) := by
@@ -387,7 +396,7 @@ theorem visitItems_sound (rec : RecS) (cd : Bool) (h : cd = true → RecSound fs
       · subst h1; rw [he]; exact Located.directive hr hf hi hk
     | tgt rng g =>
       simp only [visitItems]
-      obtain ⟨r1, r2⟩ := follow_sound fs lim root rf rec cd h f file stk hf hr hstk rng g
+      obtain ⟨r1, r2⟩ := follow_sound fs lim root rf rec cd h f file stk hf hr hstk hent rng g
         (hits _ List.mem_cons_self) s0 o hroot ho
       exact ih hrest _ r1 r2
 
@@ -396,7 +405,7 @@ theorem visit_sound : ∀ b, RecSound fs lim root rf (visit fs lim b) := by
   have init : ∀ g fg (stk s : List Path), Pre2 fs lim root rf g fg stk s →
       root ∈ (⟨[], fg.perrs.map (parseErr g), g :: s⟩ : Out).seen ∧
       Post2 fs lim root rf (g :: s) ⟨[], fg.perrs.map (parseErr g), g :: s⟩ := by
-    intro g fg stk s ⟨h1, h2, h3, _⟩
+    intro g fg stk s ⟨h1, h2, h3, _, _⟩
     refine ⟨?_, fun x hx => hx, fun x hx => by simp at hx, ?_⟩
     · rcases h2 with h2 | h2
       · subst h2; exact List.mem_cons_self
@@ -411,14 +420,14 @@ theorem visit_sound : ∀ b, RecSound fs lim root rf (visit fs lim b) := by
     intro g fg stk s hp
     obtain ⟨i1, i2⟩ := init g fg stk s hp
     unfold visit
-    exact visitItems_sound fs lim root rf _ false (fun x => by simp at x) g fg stk hp.1 hp.2.2.1 hp.2.2.2
-      _ (fun _ hx => hx) _ _ i1 i2
+    exact visitItems_sound fs lim root rf _ false (fun x => by simp at x) g fg stk hp.1 hp.2.2.1 hp.2.2.2.1
+      hp.2.2.2.2 _ (fun _ hx => hx) _ _ i1 i2
   | succ b ih =>
     intro g fg stk s hp
     obtain ⟨i1, i2⟩ := init g fg stk s hp
     unfold visit
-    exact visitItems_sound fs lim root rf _ true (fun _ => ih) g fg stk hp.1 hp.2.2.1 hp.2.2.2
-      _ (fun _ hx => hx) _ _ i1 i2
+    exact visitItems_sound fs lim root rf _ true (fun _ => ih) g fg stk hp.1 hp.2.2.1 hp.2.2.2.1
+      hp.2.2.2.2 _ (fun _ hx => hx) _ _ i1 i2
 end
 
 section
@@ -593,6 +602,197 @@ theorem visit_complete : ∀ b, RecComplete fs lim root rf (visit fs lim b) := b
     intro g fg stk s hp
     unfold visit
     exact main _ true (fun _ => ih) g fg stk s hp
+end
+
+section
+variable (fs : FS) (lim : Limits) (root : Path) (rf : File)
+
+/-! ### Without a cycle diagnostic (and without a depth diagnostic) nothing entered lies on a cycle -/
+
+def NoCyc (es : List Err) : Prop := ∀ e ∈ es, e.kind ≠ .cycle
+
+/-- the files that are finished (seen and not on the stack) only name finished files -/
+def Done (s stk : List Path) : Prop :=
+  ∀ x ∈ s, x ∉ stk → ∀ y, EdgeL fs lim root rf x y → y ∈ s ∧ y ∉ stk
+
+theorem Done.leads {s stk : List Path} (h : Done fs lim root rf s stk) {x y : Path}
+    (hx : x ∈ s) (hx' : x ∉ stk) (hl : LeadsL fs lim root rf x y) : y ∈ s ∧ y ∉ stk := by
+  induction hl with
+  | refl => exact ⟨hx, hx'⟩
+  | tail _ he ih => exact h _ ih.1 ih.2 _ he
+
+def Pre4 (g : Path) (fg : File) (stk s : List Path) : Prop :=
+  Pre3 fs root rf g fg stk s ∧ g ∉ s ∧ Done fs lim root rf s stk
+
+def Post4 (stk s : List Path) (r : Out) : Prop :=
+  NoDepth r.errs → NoCyc r.errs →
+    Done fs lim root rf r.seen stk ∧ ∀ x ∈ r.seen, x ∉ s → ¬ OnCycle fs lim root rf x
+
+def RecAcyc (rec : RecS) : Prop :=
+  ∀ g fg stk s, Pre4 fs lim root rf g fg stk s → Post4 fs lim root rf stk s (rec g fg stk s)
+
+theorem follow_acyc (rec : RecS) (cd : Bool) (h : cd = true → RecAcyc fs lim root rf rec)
+    (f : Path) (stk : List Path) (rng : Rng) (g : Path) (s0 : List Path)
+    (o : Out) (hroot : root ∈ o.seen) (hstk : ∀ x ∈ f :: stk, x ∈ o.seen)
+    (hnd : NoDepth (follow fs lim rec cd f (f :: stk) rng g o).errs)
+    (hnc : NoCyc (follow fs lim rec cd f (f :: stk) rng g o).errs)
+    (hfin : Done fs lim root rf o.seen (f :: stk))
+    (hac : ∀ x ∈ o.seen, x ∉ s0 → ¬ OnCycle fs lim root rf x) :
+    g ∉ f :: stk ∧ Done fs lim root rf (follow fs lim rec cd f (f :: stk) rng g o).seen (f :: stk) ∧
+      ∀ x ∈ (follow fs lim rec cd f (f :: stk) rng g o).seen, x ∉ s0 → ¬ OnCycle fs lim root rf x := by
+  unfold follow at hnd hnc ⊢
+  split
+  · rename_i hc
+    simp only [hc, if_true] at hnc
+    exact absurd rfl (hnc ⟨.cycle, g, "", rng, some f⟩ (by simp))
+  rename_i hc
+  have hg1 : g ∉ f :: stk := by simpa using hc
+  simp only [hc] at hnd hnc
+  split
+  · exact ⟨hg1, hfin, hac⟩
+  rename_i hseen
+  have hg : g ∉ o.seen := by simpa using hseen
+  simp only [hseen] at hnd hnc
+  split
+  · exact ⟨hg1, hfin, hac⟩
+  · rename_i fg hfs
+    simp only [hfs] at hnd hnc
+    split
+    · exact ⟨hg1, hfin, hac⟩
+    · rename_i hsz
+      simp only [hsz, if_false] at hnd hnc
+      split
+      · exact ⟨hg1, hfin, hac⟩
+      · rename_i hcd
+        simp only [hcd] at hnd hnc
+        have hcd' : cd = true := by simpa using hcd
+        have hne : g ≠ root := fun e => hg (e ▸ hroot)
+        have hpre : Pre4 fs lim root rf g fg (f :: stk) o.seen := by
+          refine ⟨⟨?_, Or.inr hroot, hstk⟩, hg, hfin⟩
+          unfold fileOf; simp only [hne, if_false]; exact hfs
+        obtain ⟨q1, q2⟩ := h hcd' g fg (f :: stk) o.seen hpre
+          (fun e he => hnd e (List.mem_append_right _ he))
+          (fun e he => hnc e (List.mem_append_right _ he))
+        refine ⟨hg1, q1, ?_⟩
+        intro x hx hx0
+        by_cases hxo : x ∈ o.seen
+        · exact hac x hxo hx0
+        · exact q2 x hx hxo
+
+theorem visitItems_acyc (rec : RecS) (cd : Bool) (hc : cd = true → RecComplete fs lim root rf rec)
+    (h : cd = true → RecAcyc fs lim root rf rec)
+    (f : Path) (stk : List Path) (its : List Item) (s0 : List Path)
+    (o : Out) (hroot : root ∈ o.seen) (hstk : ∀ x ∈ f :: stk, x ∈ o.seen)
+    (hnd : NoDepth (visitItems fs lim rec cd f (f :: stk) its o).errs)
+    (hnc : NoCyc (visitItems fs lim rec cd f (f :: stk) its o).errs)
+    (hfin : Done fs lim root rf o.seen (f :: stk))
+    (hac : ∀ x ∈ o.seen, x ∉ s0 → ¬ OnCycle fs lim root rf x) :
+    (∀ rng y, Item.tgt rng y ∈ its → y ∉ f :: stk) ∧
+      Done fs lim root rf (visitItems fs lim rec cd f (f :: stk) its o).seen (f :: stk) ∧
+      ∀ x ∈ (visitItems fs lim rec cd f (f :: stk) its o).seen, x ∉ s0 → ¬ OnCycle fs lim root rf x := by
+  induction its generalizing o with
+  | nil => exact ⟨fun rng y hy => by simp at hy, hfin, hac⟩
+  | cons it rest ih =>
+    cases it with
+    | err e =>
+      simp only [visitItems] at hnd hnc ⊢
+      obtain ⟨i1, i2, i3⟩ := ih { o with errs := o.errs ++ [e] } hroot hstk hnd hnc hfin hac
+      refine ⟨?_, i2, i3⟩
+      intro rng y hy
+      simp only [List.mem_cons, reduceCtorEq, false_or] at hy
+      exact i1 rng y hy
+    | tgt rng g =>
+      simp only [visitItems] at hnd hnc ⊢
+      obtain ⟨f1, _, _⟩ := follow_complete fs lim root rf rec cd hc f stk rng g o hroot hstk
+      obtain ⟨_, m2, _⟩ := visitItems_complete fs lim root rf rec cd hc f stk rest
+        (follow fs lim rec cd f (f :: stk) rng g o) (f1 root hroot) (fun x hx => f1 x (hstk x hx))
+      obtain ⟨a1, a2, a3⟩ := follow_acyc fs lim root rf rec cd h f stk rng g s0 o hroot hstk
+        (fun e he => hnd e (m2 e he)) (fun e he => hnc e (m2 e he)) hfin hac
+      obtain ⟨i1, i2, i3⟩ := ih (follow fs lim rec cd f (f :: stk) rng g o) (f1 root hroot)
+        (fun x hx => f1 x (hstk x hx)) hnd hnc a2 a3
+      refine ⟨?_, i2, i3⟩
+      intro rng' y hy
+      simp only [List.mem_cons, Item.tgt.injEq] at hy
+      rcases hy with ⟨_, hy⟩ | hy
+      · subst hy; exact a1
+      · exact i1 rng' y hy
+
+theorem visit_acyc : ∀ b, RecAcyc fs lim root rf (visit fs lim b) := by
+  have main : ∀ (rec : RecS) (cd : Bool), (cd = true → RecComplete fs lim root rf rec) →
+      (cd = true → RecAcyc fs lim root rf rec) →
+      ∀ g fg stk s, Pre4 fs lim root rf g fg stk s →
+      Post4 fs lim root rf stk s (visitItems fs lim rec cd g (g :: stk) (items fs g fg)
+        ⟨[], fg.perrs.map (parseErr g), g :: s⟩) := by
+    intro rec cd hc h g fg stk s ⟨⟨h1, h2, h3⟩, hgs, hfin⟩ hnd hnc
+    have hroot : root ∈ g :: s := by
+      rcases h2 with h2 | h2
+      · subst h2; exact List.mem_cons_self
+      · exact List.mem_cons_of_mem _ h2
+    have hstk : ∀ x ∈ g :: stk, x ∈ g :: s := by
+      intro x hx
+      simp only [List.mem_cons] at hx ⊢
+      rcases hx with hx | hx
+      · exact Or.inl hx
+      · exact Or.inr (h3 x hx)
+    have hfin0 : Done fs lim root rf (g :: s) (g :: stk) := by
+      intro x hx hx' y hy
+      simp only [List.mem_cons, not_or] at hx hx'
+      have hxs : x ∈ s := by
+        rcases hx with hx | hx
+        · exact absurd hx hx'.1
+        · exact hx
+      obtain ⟨y1, y2⟩ := hfin x hxs hx'.2 y hy
+      refine ⟨List.mem_cons_of_mem _ y1, ?_⟩
+      simp only [List.mem_cons, not_or]
+      exact ⟨fun e => hgs (e ▸ y1), y2⟩
+    obtain ⟨c1, _, c3⟩ := visitItems_complete fs lim root rf rec cd hc g stk (items fs g fg)
+      ⟨[], fg.perrs.map (parseErr g), g :: s⟩ hroot hstk
+    obtain ⟨t1, _⟩ := c3 hnd
+    obtain ⟨a1, a2, a3⟩ := visitItems_acyc fs lim root rf rec cd hc h g stk (items fs g fg) (g :: s)
+      ⟨[], fg.perrs.map (parseErr g), g :: s⟩ hroot hstk hnd hnc hfin0 (fun x hx hx' => absurd hx hx')
+    -- the include targets of `g` itself
+    have tgt : ∀ y, EdgeL fs lim root rf g y →
+        y ∈ (visitItems fs lim rec cd g (g :: stk) (items fs g fg)
+          ⟨[], fg.perrs.map (parseErr g), g :: s⟩).seen ∧ y ∉ g :: stk := by
+      intro y ⟨⟨file, hfile, i, hi, hn⟩, hent⟩
+      rw [h1] at hfile
+      have : fg = file := Option.some.inj hfile
+      subst this
+      have hit := names_mem_items fs g fg i hi y hn
+      refine ⟨?_, a1 i.rng y hit⟩
+      rcases hent with hent | hent
+      · subst hent; exact c1 _ hroot
+      · exact t1 i.rng y hit hent
+    refine ⟨?_, ?_⟩
+    · intro x hx hx' y hy
+      by_cases hxg : x = g
+      · subst hxg
+        obtain ⟨y1, y2⟩ := tgt y hy
+        exact ⟨y1, fun e => y2 (List.mem_cons_of_mem _ e)⟩
+      · have hx'' : x ∉ g :: stk := by
+          simp only [List.mem_cons, not_or]; exact ⟨hxg, hx'⟩
+        obtain ⟨y1, y2⟩ := a2 x hx hx'' y hy
+        exact ⟨y1, fun e => y2 (List.mem_cons_of_mem _ e)⟩
+    · intro x hx hxs
+      by_cases hxg : x = g
+      · subst hxg
+        rintro ⟨y, hy, hl⟩
+        obtain ⟨y1, y2⟩ := tgt y hy
+        have := Done.leads fs lim root rf a2 y1 y2 hl
+        exact this.2 List.mem_cons_self
+      · apply a3 x hx
+        simp only [List.mem_cons, not_or]
+        exact ⟨hxg, hxs⟩
+  intro b
+  induction b with
+  | zero =>
+    intro g fg stk s hp
+    unfold visit
+    exact main _ false (fun x => by simp at x) (fun x => by simp at x) g fg stk s hp
+  | succ b ih =>
+    intro g fg stk s hp
+    unfold visit
+    exact main _ true (fun _ => visit_complete fs lim root rf b) (fun _ => ih) g fg stk s hp
 end
 
 end HL.Lemmas.Reach
